@@ -9,7 +9,7 @@
      c_ug_assumptions_inputs_only  user-guide assumptions mention only input predicates
      c_spec_assumptions_no_output  specification assumptions mention no output predicate
      c_placeholders_single_sorted  no placeholder declared with two sorts *)
-From Coq Require Import List String ZArith Bool.
+From Coq Require Import List String ZArith Bool Lia.
 Import ListNotations.
 From Anthem Require Import Syntax.Fol Syntax.Asp Model.Problem Model.Outline Model.Strong Model.External Model.Tightness Model.PrivRec Model.Completion Proofs.ExternalOk Proofs.TasksClosed.
 Open Scope string_scope.
@@ -36,17 +36,77 @@ Theorem C11_enforce_instantiated :
 Proof. exact enforce_instantiated. Qed.
 Print Assumptions C11_enforce_instantiated.
 
-(* a task that yields no problems is refused with an error value (or panics): the result type
-   carries problems only in the Ok case, so nothing is emitted *)
-Theorem C11_refusal_emits_nothing :
+(* THE ENFORCEMENT DIRECTION (audit A11): a task that violates one of the seven conditions is
+   REFUSED WITH AN ERROR VALUE - the validation returns Err e (it never panics and never lets the
+   task through), and so does the whole decompose(): no translation is run, nothing is emitted. *)
+Theorem C11_violation_refused :
   forall (is_tight : program -> bool) (has_private_recursion : program -> list pred -> bool)
          (tau_star : program -> theory) (completion : theory -> list pred -> option theory)
          (simp_classic : formula -> formula) (t : ext_task),
-    (forall w pbs, external_decompose is_tight has_private_recursion tau_star completion simp_classic t <> Ok (w, pbs)) ->
-    (exists e, external_decompose is_tight has_private_recursion tau_star completion simp_classic t = Err e) \/
-    external_decompose is_tight has_private_recursion tau_star completion simp_classic t = Panic.
-Proof. exact refusal_emits_nothing. Qed.
-Print Assumptions C11_refusal_emits_nothing.
+    ~ (c_tight is_tight t = true /\ c_no_private_recursion has_private_recursion t = true /\
+       c_no_input_in_head t = true /\ c_io_disjoint t = true /\ c_ug_assumptions_inputs_only t = true /\
+       c_spec_assumptions_no_output t = true /\ c_placeholders_single_sorted t = true) ->
+    exists err,
+      external_validate is_tight has_private_recursion t = Err err /\
+      external_decompose is_tight has_private_recursion tau_star completion simp_classic t = Err err.
+Proof.
+  intros it hp ts cp sc t Hn. apply violation_refused.
+  unfold all_seven.
+  destruct (c_tight it t); [|reflexivity].
+  destruct (c_no_private_recursion hp t); [|reflexivity].
+  destruct (c_no_input_in_head t); [|reflexivity].
+  destruct (c_io_disjoint t); [|reflexivity].
+  destruct (c_ug_assumptions_inputs_only t); [|reflexivity].
+  destruct (c_spec_assumptions_no_output t); [|reflexivity].
+  destruct (c_placeholders_single_sorted t); [|reflexivity].
+  exfalso. apply Hn. repeat split; reflexivity.
+Qed.
+Print Assumptions C11_violation_refused.
+
+(* the validation never panics (its only outcomes are Ok warnings / Err e) *)
+Theorem C11_validate_never_panics :
+  forall (is_tight : program -> bool) (has_private_recursion : program -> list pred -> bool) (t : ext_task),
+    external_validate is_tight has_private_recursion t <> Panic.
+Proof. exact validate_never_panics. Qed.
+Print Assumptions C11_validate_never_panics.
+
+(* the error variant names a condition that is really violated.  [error_names_violation t e]:
+     NonTightProgram                               c_tight t = false
+     ProgramContainsPrivateRecursion               c_no_private_recursion t = false
+     InputPredicateInRuleHead                      c_no_input_in_head t = false
+     InputOutputPredicatesOverlap                  c_io_disjoint t = false
+     OutputPredicateInSpecificationAssumption      c_spec_assumptions_no_output t = false
+     PlaceholdersWithIdenticalNamesDifferentSorts  c_placeholders_single_sorted t = false
+     AssumptionContainsNonInputSymbols             c_ug_assumptions_inputs_only t = false, or the
+                                                   specification has an assumption outside inputs + program-private predicates
+     UnsupportedFormulaRepresentation              et_repr t = ReprMu
+     SpecificationContainsUnsupportedRoles         the specification has a role other than assumption / spec
+     (the two remaining variants are never returned by the validation) *)
+Theorem C11_error_names_violation :
+  forall (is_tight : program -> bool) (has_private_recursion : program -> list pred -> bool) (t : ext_task) e,
+    external_validate is_tight has_private_recursion t = Err e ->
+    error_names_violation is_tight has_private_recursion t e.
+Proof. exact validate_error_sound. Qed.
+Print Assumptions C11_error_names_violation.
+
+(* for each of the seven conditions (numbered as in the header): when it is the only one violated,
+   the task is refused with exactly the corresponding variant
+     1 NonTightProgram  2 ProgramContainsPrivateRecursion  3 InputPredicateInRuleHead
+     4 InputOutputPredicatesOverlap  5 AssumptionContainsNonInputSymbols
+     6 OutputPredicateInSpecificationAssumption  7 PlaceholdersWithIdenticalNamesDifferentSorts
+   (the checks run in source order and stop at the first failure; with several violations the
+   reported variant is that of one of them: C11_error_names_violation) *)
+Theorem C11_single_violation_variant :
+  forall (is_tight : program -> bool) (has_private_recursion : program -> list pred -> bool)
+         (tau_star : program -> theory) (completion : theory -> list pred -> option theory)
+         (simp_classic : formula -> formula) (t : ext_task) (k : nat),
+    1 <= k <= 7 -> et_repr t = ReprTauStar ->
+    condition is_tight has_private_recursion k t = false ->
+    (forall j, 1 <= j <= 7 -> j <> k -> condition is_tight has_private_recursion j t = true) ->
+    external_validate is_tight has_private_recursion t = Err (variant_of k) /\
+    external_decompose is_tight has_private_recursion tau_star completion simp_classic t = Err (variant_of k).
+Proof. exact single_violation_variant. Qed.
+Print Assumptions C11_single_violation_variant.
 
 (* converse for the validation step: the seven conditions, together with the three remaining
    admissibility checks of the code, make every ensure_* check succeed *)
@@ -72,3 +132,19 @@ Example C11_nonvacuous :
   external_validate (fun _ => false) (fun _ _ => false) (task false) = Err NonTightProgram /\
   external_validate (fun _ => false) (fun _ _ => false) (task true) = Ok [WNonTightProgram; WNonTightProgram].
 Proof. cbv zeta. repeat split; reflexivity. Qed.
+
+(* non-vacuity of the enforcement direction: an input predicate in a rule head (condition 3 and
+   only it) => refused with InputPredicateInRuleHead, obtained THROUGH the theorem *)
+Example C11_violation_nonvacuous :
+  let prog := [mkrule (HBasic (mkatom "in" [TPre (PNum 1)])) []] in
+  let t := mkext (inl prog) prog [UGInput (mkpred "in" 1)] [] DSequential DUniversal ReprTauStar false true true in
+  forall tau_star completion simp_classic,
+    external_decompose (fun _ => true) (fun _ _ => false) tau_star completion simp_classic t = Err InputPredicateInRuleHead.
+Proof.
+  cbv zeta. intros ts cp sc.
+  match goal with |- external_decompose _ _ _ _ _ ?t = _ =>
+    apply (C11_single_violation_variant (fun _ => true) (fun _ _ => false) ts cp sc t 3) end;
+    [split; repeat constructor|reflexivity|reflexivity|].
+  intros j [H1 H7] Hne.
+  destruct j as [|[|[|[|[|[|[|[|j]]]]]]]]; try reflexivity; try (exfalso; apply Hne; reflexivity); exfalso; lia.
+Qed.
